@@ -150,7 +150,7 @@ pub fn prop() -> HistProp {
         weights: w,
         min_ops: 5,
         max_ops: (40, 100),
-        cases: (12_000, 400_000),
+        cases: (20_000, 400_000),
         make: || Box::new(Mon::default()),
         rule: "deployments whose vAMMs all have a fluctuation limit from {0.1%, 1%, 2%, 5%, 12.5%, 30%}, many trades per block by several traders drifting the price, whale trades sized from the reserves to land at 50% / 90% / 99% / 100% / 101% / 150% of the limit, both directions, block boundaries in between, closes with partial-close fractions from {0, 25%, 33.3%, 50%, 95%, 100%}. The harness records each vAMM's spot price at the first moment of every block (= price at the end of the previous block) as reference. (a) a successful OpenPosition leaving size != 0 leaves spot inside [floor(ref*(D-l)/D), ceil(ref*(D+l)/D)]; (b) if spot is already outside that band such an OpenPosition must fail; (c) a successful ClosePosition with fraction < 100%: position gone => spot inside the band; position remains => |size| fell by exactly floor(|size|*fraction/D). Nothing is asserted in the vAMM's creation block (deployments advance one block first). Non-trivial: an open or close in a block in which the price had already moved, or an open attempt with the price already outside the band. Distinct by digest of (cfg, ops).",
         assumptions: &["the band is evaluated with integer rounding in the lenient direction (one raw price unit)"],
